@@ -251,7 +251,8 @@ func (w *World) AskOnce(ctx context.Context, ep Endpoint, to, ch, reqLen, mtu in
 				blend = ok
 			}
 			res.Violate(w.step(), "ask-wrong-answer", "Ask %d returned %d bytes that are not what its handler produced for this request: %s", rec.ID, n, w.describeAnswer(rec)).With("stack", w.Spec).
-				With("blendOfDuplicateInvocations", blend)
+				With("blendOfDuplicateInvocations", blend).
+				With("networkDuplicatesDatagrams", w.UsesSim() && w.Net.Faults.Dup > 0 && !w.Net.FaultsOff)
 		}
 	}
 	return rec
